@@ -4,6 +4,7 @@ import (
 	"fmt"
 	"math/bits"
 	"strings"
+	"sync"
 )
 
 // Term is a hash-consed SMT term: a bit-vector of width W (8..64) or a Bool (W==0).
@@ -30,8 +31,11 @@ type termKey struct {
 	a0, a1, a2 int
 }
 
+// The term table is shared by all worker goroutines of a run (hash-consing is
+// global so that terms can be compared by pointer); it is guarded by termMu.
 var termTab = map[termKey]*Term{}
 var termSeq int
+var termMu sync.Mutex
 
 func mask(w int) uint64 {
 	if w >= 64 {
@@ -55,6 +59,8 @@ func intern(t *Term) *Term {
 	default:
 		panic("intern: too many args")
 	}
+	termMu.Lock()
+	defer termMu.Unlock()
 	if o, ok := termTab[k]; ok {
 		return o
 	}
@@ -94,15 +100,6 @@ func mergeSums(a, b []*Term) []*Term {
 	return out
 }
 
-// resetTerms forgets every interned term (ids keep growing, so terms of
-// different generations never clash in the solver).
-func resetTerms() {
-	termTab = make(map[termKey]*Term, 1<<15)
-	constCache = [65][256]*Term{}
-	intern(True)
-	intern(False)
-}
-
 func (t *Term) IsConst() bool { return t.Op == "const" }
 func (t *Term) IsBool() bool  { return t.W == 0 }
 
@@ -112,13 +109,21 @@ func BV(w int, v uint64) *Term {
 	v &= mask(w)
 	if v < 256 {
 		if c := constCache[w][v]; c != nil {
-			return c
+			return c // filled once in init, read-only afterwards
 		}
-		c := intern(&Term{Op: "const", W: w, Val: v})
-		constCache[w][v] = c
-		return c
 	}
 	return intern(&Term{Op: "const", W: w, Val: v})
+}
+
+func init() {
+	for _, w := range []int{1, 8, 16, 32, 64} {
+		for v := uint64(0); v < 256; v++ {
+			if v > mask(w) {
+				break
+			}
+			constCache[w][v] = intern(&Term{Op: "const", W: w, Val: v})
+		}
+	}
 }
 func Bool(b bool) *Term {
 	if b {
